@@ -15,7 +15,7 @@ metadata only after force_flush returned Ok; force_flush returns Ok only with no
 error; retirement is guarded by successor_is_durable_or_deleted; Drop drains workers before metadata.
 Not decided: which contents a crash image recovers to (needs crash images, not a static fact).
 """
-DECIDED = ['writer and recovery token folds agree (shared with C10.token)', 'successor_is_durable_or_deleted memoises only after its verdict and answers true only behind a durable / memoised / deleted generation', "(a) fsync between device write and acknowledging return", "(b) journal/data/clear/publish order and Ok-guards",
+DECIDED = ['admission bound, header-fit bound and field layout of writer and recovery agree (shared with C10.record)', 'writer and recovery token folds agree (shared with C10.token)', 'successor_is_durable_or_deleted memoises only after its verdict and answers true only behind a durable / memoised / deleted generation', "(a) fsync between device write and acknowledging return", "(b) journal/data/clear/publish order and Ok-guards",
            "(c) flush()/force_flush acknowledgement shape", "(d) retire only after successor durable",
            "(e) Drop: finish_shutdown before metadata before DiskIO::shutdown",
            'recovery frees an owned extent with the length of the generation whose sector it releases',
